@@ -43,10 +43,11 @@ def localErr (tm : TM) : Option Nat :=
     | none => some 3
     | some k => if k ≠ tm.id then some 4 else if tm.nvar ≠ 0 then some 5 else none
 
-/-- `mathhelp.FBetweenInc(prev.CellSize / tm.CellSize, 1.99, 2.01)` on exact rationals (cell sizes are positive) -/
+/-- `mathhelp.FBetweenInc(prev.CellSize / tm.CellSize, 1.99, 2.01)` on exact rationals (cell sizes are non-negative) -/
 def ratioOK (prev tm : TM) : Bool :=
   -- 1.99 ≤ (pn/pd)/(tn/td) ≤ 2.01  ⇔  199·tn·pd ≤ 100·pn·td ≤ 201·tn·pd   (all positive)
-  decide (199 * tm.csNum * prev.csDen ≤ 100 * prev.csNum * tm.csDen) && decide (100 * prev.csNum * tm.csDen ≤ 201 * tm.csNum * prev.csDen)
+  -- a cell size of 0 has no ratio (`x/0` is `+Inf` or `NaN` in Go: not between); cell sizes are non-negative (negative ones are not generated)
+  decide (0 < tm.csNum) && decide (199 * tm.csNum * prev.csDen ≤ 100 * prev.csNum * tm.csDen) && decide (100 * prev.csNum * tm.csDen ≤ 201 * tm.csNum * prev.csDen)
 
 def pairErr (prev tm : TM) : Option Nat :=
   if tm.id ≠ prev.id + 1 then some 6
